@@ -22,6 +22,7 @@ typedef struct op {
   void (*run)(opcase_t *);
   void (*check)(opcase_t *);
   uint64_t (*canon)(opcase_t *); /* NULL: bit-exact digest is configuration independent */
+  void (*reparam)(opcase_t *, rng_t *); /* re-draw tuning parameters (k, cutoff, threshold) only; may be NULL */
 } op_t;
 
 struct opcase {
@@ -46,6 +47,16 @@ struct opcase {
   int ran;
   int nontrivial;
 };
+
+/* constants used by the GENERATORS to aim shapes at regime boundaries. Default: this build's values;
+ * the cross-configuration monitor (C12) overrides them so that inputs are identical in every build. */
+typedef struct {
+  int mul_block, strassen_cutoff;
+  long ple_cutoff, l1, l3;
+} genconst_t;
+extern genconst_t GC;
+void gc_default(void);
+void gc_set(int which); /* 0 = small triple, 1 = host triple */
 
 extern const op_t *OPS;
 extern int NOPS;
